@@ -189,6 +189,34 @@ class TSeq(T):
         raise Unsupported(f"expected sequence, got {v!r}")
 
 
+_map_sorts = {}
+
+
+class TMap(T):
+    """python dict as ONE term: tuple (dom: Array K Bool, val: Array K V). Compared extensionally."""
+
+    def __init__(self, kt: T, vt: T):
+        self.kt, self.vt = kt, vt
+        key = (str(kt.sort()), str(vt.sort()))
+        if key not in _map_sorts:
+            name = "Map_" + "_".join(k.replace(" ", "").replace("(", "").replace(")", "") for k in key)
+            _map_sorts[key] = z3.TupleSort(name, [z3.ArraySort(kt.sort(), z3.BoolSort()), z3.ArraySort(kt.sort(), vt.sort())])
+        self.s, self.mk, (self.f_dom, self.f_val) = _map_sorts[key]
+
+    def sort(self):
+        return self.s
+
+    def wrap(self, t):
+        return SMap(self.kt, self.vt, self.f_dom(t), self.f_val(t))
+
+    def unwrap(self, cx, v):
+        if isinstance(v, SMap):
+            return self.mk(v.dom, v.val)
+        if isinstance(v, dict) and not v:
+            return self.mk(z3.K(self.kt.sort(), z3.BoolVal(False)), z3.Const(fresh_name("emp_val"), z3.ArraySort(self.kt.sort(), self.vt.sort())))
+        raise Unsupported(f"expected dict, got {v!r}")
+
+
 INT, BOOL, STR = TInt(), TBool(), TStr()
 
 
@@ -263,6 +291,8 @@ class SRef(SVal):
     def py_getattr(self, cx, name):
         ft = self.field_type(name)
         if ft is not None:
+            if isinstance(ft, TMap):
+                return SMapHeapView(cx, self, name, ft)  # dict fields keep reference semantics
             return ft.wrap(z3.Select(cx.heap_array(self.field_key(name), ft), self.t))
         return cx.lookup_attr(self, name)
 
@@ -412,8 +442,7 @@ class SSeq(SVal):
             return SSeq(self.elt, self.make(ln, z3.Lambda([k], self.at_term(k + lo_t))))
         i = term(idx)
         i_n = z3.If(i < 0, i + n, i)
-        if not cx.decide(z3.And(i_n >= 0, i_n < n)):
-            cx.py_raise("IndexError", "list index out of range")
+        cx.decide_or_fail(z3.And(i_n >= 0, i_n < n), "IndexError", "list index out of range")
         return self.elt.wrap(self.at_term(i_n))
 
     def py_setitem(self, cx, idx, val):
@@ -480,16 +509,29 @@ class SSeq(SVal):
     def meth_sort(self, cx, key=None):
         """Trusted T4: list.sort() yields an ascending PERMUTATION (witnessed by a bijection on indices) —
         provided `<` on the elements is a strict weak order (a lemma of the property that uses it)."""
-        if key is not None:
-            raise Unsupported("sort(key=...) needs a spec binding")
         old = self.snapshot()
         n = old.n
         new = SSeq(self.elt, self.make(n, z3.Const(fresh_name("sorted_arr"), z3.ArraySort(z3.IntSort(), self.elt.sort()))))
         pi = z3.Function(fresh_name("perm"), z3.IntSort(), z3.IntSort())
         pinv = z3.Function(fresh_name("perm_inv"), z3.IntSort(), z3.IntSort())
         i, j = z3.Int(fresh_name("si")), z3.Int(fresh_name("sj"))
-        lt = cx.run.registry.elem_lt(cx, self.elt)
-        cx.assume(z3.ForAll([i, j], z3.Implies(z3.And(0 <= i, i < j, j < n), z3.Not(lt(cx, new.at(j), new.at(i))))))
+        if key is not None:
+            # key function evaluated on a generic element; it must be total on the list's elements
+            x = z3.Const(fresh_name("sort_x"), self.elt.sort())
+            kval, fails, axioms = cx.run.interp.eval_on_element(cx, key, self.elt.wrap(x), None)
+            if not isinstance(kval, (int, SInt)):
+                raise Unsupported("sort key is not an int")
+            kt = term(kval)
+            sub = lambda t, e: z3.substitute(t, (x, e))  # noqa: E731
+            for exc, fc in fails:
+                cx.oblige(f"sort-key-total:{exc}", "no-exception", z3.ForAll([i], z3.Implies(z3.And(0 <= i, i < n), z3.Not(sub(fc, old.at_term(i))))), clause="the sort key is defined for every element")
+            for ax in axioms:
+                cx.assume(z3.ForAll([i], z3.Implies(z3.And(0 <= i, i < n), sub(ax, old.at_term(i)))))
+            cx.assume(z3.ForAll([i, j], z3.Implies(z3.And(0 <= i, i < j, j < n), sub(kt, new.at_term(i)) <= sub(kt, new.at_term(j)))))
+            cx.ghost.setdefault("sort_keys", []).append((x, kt))
+        else:
+            lt = cx.run.registry.elem_lt(cx, self.elt)
+            cx.assume(z3.ForAll([i, j], z3.Implies(z3.And(0 <= i, i < j, j < n), z3.Not(lt(cx, new.at(j), new.at(i))))))
         cx.assume(z3.ForAll([i], z3.Implies(z3.And(0 <= i, i < n), z3.And(0 <= pi(i), pi(i) < n, new.at_term(i) == old.at_term(pi(i)), pinv(pi(i)) == i))))
         cx.assume(z3.ForAll([i], z3.Implies(z3.And(0 <= i, i < n), z3.And(0 <= pinv(i), pinv(i) < n, pi(pinv(i)) == i, new.at_term(pinv(i)) == old.at_term(i)))))
         cx.ghost.setdefault("sorts", []).append((old, new, pi, pinv))
@@ -552,8 +594,7 @@ class SMap(SVal):
 
     def py_getitem(self, cx, k):
         kt = self.kt.unwrap(cx, k)
-        if not cx.decide(z3.Select(self.dom, kt)):
-            cx.py_raise("KeyError", "missing key")
+        cx.decide_or_fail(z3.Select(self.dom, kt), "KeyError", "missing key")
         return self._wrap_at(kt)
 
     def _wrap_at(self, kt):
@@ -597,6 +638,9 @@ class SMap(SVal):
     def meth_items(self, cx):
         return MapItems(self)
 
+    def meth_values(self, cx):
+        return MapValues(self)
+
     def meth_copy(self, cx):
         return SMap(self.kt, self.vt, self.dom, self.val)
 
@@ -621,6 +665,41 @@ class SMap(SVal):
         return "SMap(..)"
 
 
+class SMapHeapView(SMap):
+    """A dict stored in a heap field of an object: reads/writes go through the heap array."""
+
+    def __init__(self, cx, ref, field, ft):
+        self.cx, self.ref, self.field, self.ft = cx, ref, field, ft
+        self.kt, self.vt = ft.kt, ft.vt
+        self.key = ref.field_key(field)
+
+    def _cur(self):
+        return z3.Select(self.cx.heap_array(self.key, self.ft), self.ref.t)
+
+    def _store(self, dom, val):
+        arr = self.cx.heap_array(self.key, self.ft)
+        self.cx.heap[self.key] = z3.Store(arr, self.ref.t, self.ft.mk(dom, val))
+
+    @property
+    def dom(self):
+        return self.ft.f_dom(self._cur())
+
+    @dom.setter
+    def dom(self, v):
+        self._store(v, self.ft.f_val(self._cur()))
+
+    @property
+    def val(self):
+        return self.ft.f_val(self._cur())
+
+    @val.setter
+    def val(self, v):
+        self._store(self.ft.f_dom(self._cur()), v)
+
+    def snapshot(self):
+        return SMap(self.kt, self.vt, self.dom, self.val)
+
+
 class MapItems(SVal):
     def __init__(self, m: SMap):
         self.m = m
@@ -628,6 +707,15 @@ class MapItems(SVal):
     def py_iter_schema(self, cx):
         m = self.m
         return SetIter(m.kt, m.dom, lambda kterm: STuple((m.kt.wrap(kterm), m.vt.wrap(z3.Select(m.val, kterm)))))
+
+
+class MapValues(SVal):
+    def __init__(self, m: SMap):
+        self.m = m
+
+    def py_iter_schema(self, cx):
+        m = self.m
+        return SetIter(m.kt, m.dom, lambda kterm: m.vt.wrap(z3.Select(m.val, kterm)))
 
 
 class SSet(SVal):
@@ -677,6 +765,12 @@ class SSet(SVal):
 
     def py_iter_schema(self, cx):
         return SetIter(self.kt, self.dom, lambda kterm: self.kt.wrap(kterm))
+
+    def py_len(self, cx):
+        card = getattr(self, "card", None)
+        if card is None:
+            raise Unsupported("len() of a set without a cardinality model")
+        return SInt(card)
 
     def py_eq(self, cx, o):
         if isinstance(o, SSet):
